@@ -65,6 +65,10 @@ THEOREMS = [
     "install_returns_target", "bundle09_install_faithful", "split_join", "directive_roundtrip",
     "directive_roundtrip_file", "blockCodec_law", "directive_marker_witness", "verify_refl", "norm_skeleton",
     "tamper_detected", "verify_whitespace_witness",
+    "bundle_install_complete", "bundle_install_texts_faithful", "bundle_orphan_inventory_witness",
+    "bundle09_install_complete", "directive_file_nonl_witness", "patch_date_roundtrip", "directive_fields_roundtrip",
+    "directive_fields_roundtrip_file", "directive_epoch_timezone_witness", "directive_no_testament_witness",
+    "tamper_detected_general", "tamper_insert_detected", "tamper_delete_detected", "tamper_ws_swap_detected",
 ]
 RUST = ("patch-py",)      # format_patch_date / parse_patch_date of the directive's timestamp
 RULE = ("scenario = (seed, index, repository format): a generated history of 5-8 revisions committed through a working "
@@ -369,6 +373,53 @@ def _take_other(rng, tree, other, ops):
                     and e[1] not in {x[1] for k, x in tree.items() if x[0] == e[0] and k != f}:
                 tree[f] = e                                           # other's everything
                 ops.append("merge-all")
+
+
+def forced_history(rng):
+    """a directed history every run contains (contents still drawn from the seed): two branches edit the
+    same line of one file and retarget the same symlink (a merge of one into the other conflicts), each
+    side then merges the other (criss-cross: r04 = r02+r03, r05 = r03+r02) and goes on
+
+        r01 - r02 - r04 - r06
+           \   X
+            r03 - r05 - r07
+    """
+    F, L, D, G, H = b"f-1", b"s-2", b"d-3", b"f:4", b"f/5"
+    body = [rng.choice(LINES) for _ in range(2)] + [b"the contested line\n"] + [rng.choice(LINES) for _ in range(2)]
+    root = (None, "", "directory", None, False)
+
+    def f(lines, ex=False):
+        return (ROOT_ID, "f", "file", b"".join(lines), ex)
+    left = body[:2] + [b"contested: left %d\n" % rng.randrange(100)] + body[3:]
+    right = body[:2] + [b"contested: right %d\n" % rng.randrange(100)] + body[3:]
+    g1, g3 = gen_content(rng), None
+    g3 = mutate_content(rng, g1)
+    t1 = {ROOT_ID: root, F: f(body), L: (ROOT_ID, "link", "symlink", "target-a", False),
+          D: (ROOT_ID, "dir", "directory", None, False), G: (D, "g", "file", g1, False)}
+    t2 = dict(t1); t2[F] = f(left); t2[L] = (ROOT_ID, "link", "symlink", "target-b", False)
+    t3 = dict(t1); t3[F] = f(right); t3[L] = (ROOT_ID, "link", "symlink", "target-c", False)
+    t3[G] = (D, "g", "file", g3, False)
+    t3[H] = (D, "only-right", "file", gen_content(rng), True)
+    t4 = dict(t2); t4[G] = t3[G]; t4[H] = t3[H]                         # left wins the contested parts
+    t5 = dict(t3); t5[L] = (ROOT_ID, "link", "symlink", "target-b", False)   # right wins the file, takes left's link
+    t6 = dict(t4); t6[F] = f([b"top %d\n" % rng.randrange(100)] + left)
+    t7 = dict(t5); t7[F] = f(right + [b"bottom %d\n" % rng.randrange(100)], True)
+    t7[L] = (ROOT_ID, "link", "symlink", "target-d", False)
+    trees = [t1, t2, t3, t4, t5, t6, t7]
+    parents = [[], [b"r01"], [b"r01"], [b"r02", b"r03"], [b"r03", b"r02"], [b"r04"], [b"r05"]]
+    ops = [["init"], ["modify", "target"], ["modify", "target", "add"], ["merge-content", "merge-add"],
+           ["merge-content"], ["modify"], ["modify", "exec", "target"]]
+    revs = []
+    for i in range(7):
+        revs.append(dict(rid=b"r%02d" % (i + 1), parents=parents[i], tree=trees[i], ops=ops[i],
+                         msg=rng.choice(MESSAGES), ts=float(1500000000 + i * 1000), tz=rng.choice([0, 3600, -12600]),
+                         committer=rng.choice(COMMITTERS), props=rng.choice([{}, {"branch-nick": "forced"}])))
+    return revs
+
+
+# (bundle base, target, tree the target is merged into): a conflicting merge, the criss-cross in both
+# directions, and a merge whose base is one of the two criss-cross merges
+FORCED_MERGES = [(b"r01", b"r03", b"r02"), (b"r03", b"r07", b"r06"), (b"r02", b"r06", b"r07"), (b"r04", b"r06", b"r04")]
 
 
 # ------------------------------------------------------------------ realisation
@@ -1006,9 +1057,12 @@ def build_scenario(key):
     opts = dict(nul=("raw" if rng.random() < 0.35 else "guarded"), merge=0.4)
     kind_changes = rng.random() < 0.15
     n = rng.randint(5, 8)
-    revs = gen_history(rng, n, opts)
-    if not kind_changes:
-        revs = _without_kind_changes(revs)
+    if idx == "F":
+        revs = forced_history(rng)
+    else:
+        revs = gen_history(rng, n, opts)
+        if not kind_changes:
+            revs = _without_kind_changes(revs)
     d = env.fresh_dir("h")
     branch = build_history(d, revs, fmt)
     repo = branch.repository
@@ -1116,6 +1170,18 @@ def _run_scenario(args):
             quota[kind] -= 1
             chosen.append((b, t, kind))
     vers = ["4", "0.9"] + (["0.8"] if not sc["repo"].supports_rich_root() else [])
+    if key[1] == "F":
+        # the directed scenario: its merges are fixed, every serializer
+        cnt["forced-scenario"] += 1
+        for b, t, this in FORCED_MERGES:
+            cnt["pair:forced"] += 1
+            for ver in vers:
+                data = do_bundle(sc, b, t, ver, None, out)
+                if data is not None:
+                    do_merge(sc, b, t, this, ver, data, out)
+        from_objects_case(sc, b"r03", b"r07", rng, out)
+        shutil.rmtree(sc["dir"], ignore_errors=True)
+        return _plain(out)
     first = True
     for b, t, kind in chosen:
         cnt["pair:" + kind] += 1
@@ -1160,9 +1226,12 @@ class _Shim:
         self.real = real
         self.consumed = None
         self.canned = None
+        self.written = None      # (tag, value) pairs of the last stanza handed to to_patch_lines
+        self.read = None         # ... of the last stanza read_patch_stanza returned
 
-    def to_patch_lines(self, *a, **kw):
-        return self.real.to_patch_lines(*a, **kw)
+    def to_patch_lines(self, stanza, *a, **kw):
+        self.written = list(stanza.iter_pairs())
+        return self.real.to_patch_lines(stanza, *a, **kw)
 
     def read_patch_stanza(self, line_iter):
         consumed = []
@@ -1171,12 +1240,14 @@ class _Shim:
             for l in line_iter:
                 consumed.append(l)
                 yield l
+        self.read = None
         try:
             st = self.real.read_patch_stanza(it())
         finally:
             self.consumed = list(consumed)
         if self.canned is not None:
             return self.canned
+        self.read = list(st.iter_pairs())
         return st
 
 
@@ -1229,6 +1300,18 @@ def gen_directive_kwargs(rng, bundles):
     if bundle is None and kw["source_branch"] is None:
         kw["source_branch"] = URLS[0]
     kw.update(patch=patch, bundle=bundle)
+    r = rng.random()
+    if r < 0.03:
+        kw["testament_sha1"] = None                      # _to_lines leaves the tag out
+    elif r < 0.05:
+        kw["time"] = 0                                   # "we always give the epoch in utc"
+    elif r < 0.06:
+        kw["timezone"] = rng.choice([90, -30, 3601])     # not a whole minute: to_lines refuses
+    elif r < 0.07:
+        kw["time"], kw["timezone"] = rng.choice([(100, -3600), (5, -60), (3599, -3600)])   # before the epoch locally
+    elif r < 0.09:
+        kw["time"], kw["timezone"] = rng.choice([(3600, -3600), (1, 0), (951782400, 0), (1709251199, 0),
+                                                 (253402300799 - 43200, 43200), (86399, -86340)])
     return kw
 
 
@@ -1236,14 +1319,62 @@ FIELDS = ("revision_id", "testament_sha1", "time", "timezone", "target_branch", 
           "base_revision_id", "patch", "bundle")
 
 
-def classify_directive(kw):
-    """documented domain of the serialisation (everything else is reported as a plain violation)"""
+def hext(v):
+    """text field for the model: hex of its UTF-8, `-` = empty, `~` = None"""
+    if v is None:
+        return "~"
+    b = v if isinstance(v, bytes) else v.encode("utf-8")
+    return b.hex() or "-"
+
+
+def pairs_str(pairs):
+    return ",".join("%s=%s" % (k, v.encode("utf-8").hex() or "-") for k, v in pairs) or "-"
+
+
+def date_in_domain(t, tz):
+    """domain of patch_date_roundtrip (dateOK)"""
+    return tz % 60 == 0 and abs(tz) < 86400 and t + tz >= 0 and t + tz <= 253402300799 and (t != 0 or tz == 0)
+
+
+def classify_directive(kw, via_file):
+    """-> (by-design exclusion or None, finding family or None), both computed from the input.
+    Exclusions are documented behaviour; families are defects of the unchanged code (reported)."""
     p, b = kw["patch"], kw["bundle"]
+    dom = fam = None
     if p is not None and any(l.startswith(b"# Begin bundle") for l in p.splitlines(True)):
-        return "outside-domain:patch-line-starts-with-bundle-marker"
-    if p and b is not None and not p.endswith(b"\n"):
-        return "outside-domain:patch-without-final-newline-followed-by-bundle"
-    return None
+        dom = "outside-domain:patch-line-starts-with-bundle-marker"
+    elif kw["time"] == 0 and kw["timezone"] != 0:
+        dom = "by-design:epoch-is-written-in-utc"
+    if kw["testament_sha1"] is None:
+        fam = "directive-without-testament-sha1-does-not-parse"
+    elif via_file and p and b is not None and not p.endswith(b"\n"):
+        fam = "directive-file-roundtrip-patch-without-final-newline-before-bundle"
+    return dom, fam
+
+
+def _exc_kind(e):
+    from breezy import errors
+    from breezy import merge_directive as md
+    if isinstance(e, errors.NoMergeSource):
+        return "E:NoMergeSource"
+    if isinstance(e, md.IllegalMergeDirectivePayload):
+        return "E:IllegalPayload"
+    if isinstance(e, TypeError):
+        return "E:TypeError"
+    if isinstance(e, KeyError):
+        return "E:KeyError"
+    if isinstance(e, ValueError):
+        m = str(e)
+        if "NegativeTime" in m:
+            return "E:NegativeTime"
+        if "InvalidTimezoneOffset" in m:
+            return "E:InvalidOffset"
+        if "Invalid timezone offset" in m:
+            return "E:BadOffset"
+        if "Invalid date" in m:
+            return "E:BadDate"
+        return "E:ValueError"
+    return "E:%s" % type(e).__name__
 
 
 def directive_case(kw, out, via_file):
@@ -1253,25 +1384,48 @@ def directive_case(kw, out, via_file):
     sh = shim()
     case = dict(directive={k: (v.decode("latin-1") if isinstance(v, bytes) else v) for k, v in kw.items()}, via_file=via_file)
     d = md.MergeDirective2(**kw)
-    lines = d.to_lines()
+    dom, fam = classify_directive(kw, via_file)
+    out["cases"].append((case, kw["patch"] is not None or kw["bundle"] is not None))
+    out["count"]["directive:%s" % (fam or dom or "in-domain")] += 1
+    fields_line = "md.fields %s %s %d %d %s %s %s %s" % (
+        hext(kw["revision_id"]), hext(kw["testament_sha1"]), int(kw["time"]), kw["timezone"], hext(kw["target_branch"]),
+        hext(kw["source_branch"]), hext(kw["message"]), hext(kw["base_revision_id"]))
+    sh.written = None
+    try:
+        lines = d.to_lines()
+    except Exception as e:
+        kind = _exc_kind(e)
+        out["count"]["to_lines-refused:%s" % kind] += 1
+        if kind == "E:IllegalPayload" and kw["patch"] and kw["bundle"] is not None and not kw["patch"].endswith(b"\n"):
+            return None          # a tree that refuses what cannot survive a file (proposed repair of the finding)
+        out["t2"].append((case, fields_line, kind))
+        if date_in_domain(int(kw["time"]), kw["timezone"]) or kind not in ("E:NegativeTime", "E:InvalidOffset"):
+            out["viol"].append((case, "to_lines() raises %s: %s" % (type(e).__name__, str(e)[:100]), None))
+        return None
+    out["t2"].append((case, fields_line, pairs_str(sh.written or [])))
     block = d._to_lines(base_revision=True)[1:-1]
     out["t2"].append((case, "md.to %s %s %s" % (hexl(block), hexo(kw["patch"]), hexo(kw["bundle"])), hexl(lines)))
-    dom = classify_directive(kw)
-    out["cases"].append((case, kw["patch"] is not None or kw["bundle"] is not None))
-    out["count"]["directive:%s" % (dom or "in-domain")] += 1
     sh.canned = None
+    parsed_from = BytesIO(b"".join(lines)).readlines() if via_file else list(lines)
+    t = next(i for i, l in enumerate(parsed_from) if l in (b"# \n", b"#\n"))
+    has_bundle = any(l.startswith(b"# Begin bundle") for l in parsed_from[t + 1:])
     try:
         d2 = md.MergeDirective.from_lines(BytesIO(b"".join(lines)) if via_file else list(lines))
     except Exception as e:
+        kind = _exc_kind(e)
+        out["count"]["from_lines-raised:%s" % kind] += 1
+        if sh.read is not None and kind in ("E:TypeError", "E:KeyError", "E:NoMergeSource", "E:BadOffset", "E:BadDate"):
+            out["t2"].append((case, "md.unfields %s %s" % (pairs_str(sh.read), "T" if has_bundle else "F"), kind))
         if dom is None:
-            out["viol"].append((case, "from_lines(to_lines(d)) raises %s: %s" % (type(e).__name__, str(e)[:100]), None))
+            out["viol"].append((case, "from_lines(to_lines(d)) raises %s: %s" % (type(e).__name__, str(e)[:100]), fam))
         return lines
-    bad = [k for k in FIELDS if getattr(d2, k) != kw[k]]
-    if bad and dom is None:
+    compare = [k for k in FIELDS if not (dom == "by-design:epoch-is-written-in-utc" and k == "timezone")]
+    bad = [k for k in compare if getattr(d2, k) != kw[k]]
+    if bad and (dom is None or dom.startswith("by-design")):
         out["viol"].append((case, "from_lines(to_lines(d)) differs from d in %s: %r / %r" % (
-            bad, [getattr(d2, k) for k in bad][:2], [kw[k] for k in bad][:2]), None))
+            bad, [getattr(d2, k) for k in bad][:2], [kw[k] for k in bad][:2]), fam))
     if dom is not None:
-        out["count"]["outside-domain-roundtrip:%s" % ("differs" if bad else "equal")] += 1
+        out["count"]["%s:roundtrip-%s" % (dom, "differs" if bad else "equal")] += 1
     got_block = list(sh.consumed or [])
     if got_block and got_block[-1] in (b"# \n", b"#\n"):
         got_block = got_block[:-1]
@@ -1280,7 +1434,63 @@ def directive_case(kw, out, via_file):
         out["t2"].append((case, "md.rt %s %s %s" % (hexl(block), hexo(kw["patch"]), hexo(kw["bundle"])), impl))
     else:
         out["t2"].append((case, "md.from %s" % hexl(lines), impl))
+    if sh.read is not None:
+        out["t2"].append((case, "md.unfields %s %s" % (pairs_str(sh.read), "T" if d2.bundle is not None else "F"),
+                          "ok %s %s %d %d %s %s %s %s" % (
+                              hext(d2.revision_id), hext(d2.testament_sha1), d2.time, d2.timezone, hext(d2.target_branch),
+                              hext(d2.source_branch), hext(d2.message), hext(d2.base_revision_id))))
     return lines
+
+
+def pdate_cases(rng, out, n):
+    """format_patch_date / parse_patch_date (crates/patch): T2 on both directions, oracle = round trip on the
+    domain of patch_date_roundtrip; canonical-shape strings with out-of-range fields on error kind"""
+    from breezy._patch_rs import format_patch_date, parse_patch_date
+    secs_pool = [0, 1, 59, 3600, 86399, 86400, 951782400, 951868799, 1709164800, 1709251199, 1500000000, 2 ** 31 - 1,
+                 2 ** 31, 4102444800, 253402300799, 253402214400]
+    off_pool = [0, 0, 60, -60, 3600, -3600, 19800, -12600, -1800, 1800, 43200, -43200, 86340, -86340, 86400, -86400,
+                90, -30, 3601, 45 * 60, -(9 * 3600 + 30 * 60)]
+    for _ in range(n):
+        secs = rng.choice(secs_pool) if rng.random() < 0.5 else rng.randrange(0, 253402300800)
+        off = rng.choice(off_pool) if rng.random() < 0.7 else 60 * rng.randrange(-1439, 1440)
+        if secs + off > 253402300799:
+            secs -= 86400
+        case = dict(pdate=[secs, off])
+        out["cases"].append((case, off != 0))
+        try:
+            s = format_patch_date(secs, off)
+            impl = s.replace(" ", "_")
+        except Exception as e:
+            s, impl = None, _exc_kind(e)
+        out["count"]["pdate-fmt:%s" % (impl if s is None else "ok")] += 1
+        out["t2"].append((case, "pdate.fmt %d %d" % (secs, off), impl))
+        if s is None:
+            if date_in_domain(secs, off):
+                out["viol"].append((case, "format_patch_date(%d, %d) raises %s" % (secs, off, impl), None))
+            continue
+        try:
+            back = parse_patch_date(s)
+            impl2 = "%d %d" % back
+        except Exception as e:
+            back, impl2 = None, _exc_kind(e)
+        out["t2"].append((case, "pdate.parse %s" % s.replace(" ", "_"), impl2))
+        if date_in_domain(secs, off) and back != (secs, off):
+            out["viol"].append((case, "parse_patch_date(format_patch_date(%d, %d)) = %s (string %r)" % (secs, off, impl2, s), None))
+    for _ in range(n):
+        y = rng.choice([0, 1, 1969, 1970, 2000, 2023, 2024, 2100, 9999])
+        mo = rng.choice([0, 1, 2, 2, 4, 12, 13])
+        dd = rng.choice([0, 1, 28, 29, 30, 31, 32])
+        hh, mi, ss = rng.choice([0, 12, 23, 24]), rng.choice([0, 30, 59, 60]), rng.choice([0, 30, 59])
+        oh, om = rng.choice([0, 0, 3, 12, 23, 24, 25]), rng.choice([0, 0, 30, 59, 60, 61])
+        s = "%04d-%02d-%02d %02d:%02d:%02d %s%02d%02d" % (y, mo, dd, hh, mi, ss, rng.choice("+-"), oh, om)
+        case = dict(pdate_str=s)
+        out["cases"].append((case, True))
+        try:
+            impl = "%d %d" % parse_patch_date(s)
+        except Exception as e:
+            impl = _exc_kind(e)
+        out["count"]["pdate-parse:%s" % (impl if impl.startswith("E:") else "ok")] += 1
+        out["t2"].append((case, "pdate.parse %s" % s.replace(" ", "_"), impl))
 
 
 def damaged_case(rng, lines, good_stanza, out):
@@ -1462,7 +1672,14 @@ def _merge_out(ctx, o, t2):
 def scenario_keys(ctx, n):
     fmts = ["2a", "2a", "2a", "1.9", "2a", "1.9-rich-root"] if ctx.tier == "quick" else \
         ["2a", "2a", "1.9", "1.9-rich-root", "2a", "pack-0.92", "knit"]
-    return [((ctx.seed, i, fmts[i % len(fmts)]), ctx.tier) for i in range(n)]
+    keys = [((ctx.seed, i, fmts[i % len(fmts)]), ctx.tier) for i in range(n)]
+    # one directed scenario per run (conflicting merge, symlink retargets, criss-cross), format by seed
+    forced_fmt = ["2a", "1.9-rich-root", "2a", "1.9"][ctx.seed % 4] if ctx.tier == "quick" else "2a"
+    keys.insert(0, ((ctx.seed, "F", forced_fmt), ctx.tier))
+    if ctx.tier != "quick":
+        keys.insert(1, ((ctx.seed, "F", "1.9"), ctx.tier))
+        keys.insert(2, ((ctx.seed, "F", "pack-0.92"), ctx.tier))
+    return keys
 
 
 def scenario_with_directive(args):
@@ -1484,10 +1701,16 @@ def run(ctx, nscen=None, ndir=None):
         strings += layer
     for b in strings:
         case = dict(norm=b.decode())
-        ctx.case(case, nontrivial=(b" \n" in b or b"\r" in b))
+        # the enumeration is counted on its own (norm-strings / norm-strings-touched), not among the
+        # non-trivial cases of the run
+        ctx.case(case, nontrivial=False)
+        if b" \n" in b or b"\r" in b:
+            ctx.count("norm-strings-touched")
         t2.append((case, "norm %s" % hexo(b), hexo(norm_py(b))))
     ctx.count("norm-strings", len(strings))
-    ctx.exhaustive = True
+    # only the normaliser enumeration is exhaustive; histories, bundles and directives are sampled
+    ctx.exhaustive = False
+    ctx.extra["exhaustive_parts"] = ["_verify_patch normalisation over {a, space, CR, LF}^<=%d" % ctx.pick(6, 7)]
     # ---- 2. directives with random fields -----------------------------------------------------
     out = dict(viol=[], t2=[], count=collections.Counter(), cases=[])
     rng = ctx.rng
@@ -1498,8 +1721,9 @@ def run(ctx, nscen=None, ndir=None):
     for i in range(ndir or ctx.pick(150, 1500)):
         kw = gen_directive_kwargs(rng, bundles)
         lines = directive_case(kw, out, via_file=(i % 2 == 0))
-        if rng.random() < 0.12:
+        if lines is not None and rng.random() < 0.12:
             damaged_case(rng, lines, good, out)
+    pdate_cases(rng, out, ctx.pick(300, 3000))
     _merge_out(ctx, dict(out, count=dict(out["count"])), t2)
     # ---- 3. histories, bundles, merges, from_objects ------------------------------------------
     keys = scenario_keys(ctx, nscen or ctx.pick(6, 20))
@@ -1521,6 +1745,19 @@ def replay(ctx, case):
         b = case["norm"].encode()
         m = ctx.model(["norm %s" % hexo(b)])[0]
         return dict(case=case, impl=hexo(norm_py(b)), model=m, agree=m == hexo(norm_py(b)))
+    if "pdate" in case or "pdate_str" in case:
+        from breezy._patch_rs import format_patch_date, parse_patch_date
+        try:
+            if "pdate" in case:
+                st = format_patch_date(*case["pdate"])
+                impl = [st, "%d %d" % parse_patch_date(st)]
+                lines = ["pdate.fmt %d %d" % tuple(case["pdate"]), "pdate.parse %s" % st.replace(" ", "_")]
+            else:
+                impl = ["%d %d" % parse_patch_date(case["pdate_str"])]
+                lines = ["pdate.parse %s" % case["pdate_str"].replace(" ", "_")]
+        except Exception as e:
+            return dict(case=case, impl=_exc_kind(e))
+        return dict(case=case, impl=impl, model=ctx.model(lines))
     if "directive" in case:
         kw = {k: (v.encode("latin-1") if k in ("revision_id", "testament_sha1", "base_revision_id", "patch", "bundle")
                   and v is not None else v) for k, v in case["directive"].items()}
